@@ -28,6 +28,22 @@ inductive BDen (b : Bag) : BNode → BTerm → Prop
 def SingleIncoming (es : List BEdge) : Prop :=
   ∀ e₁ ∈ es, ∀ e₂ ∈ es, e₁.out = e₂.out → e₁ = e₂
 
+/-- rule 2 of `normalize_bag`, as lists: no two edges (positions of the list) with the same output -/
+def OutsNodup (es : List BEdge) : Prop := (es.map (·.out)).Nodup
+
+theorem outsNodup_single {es : List BEdge} (h : OutsNodup es) : SingleIncoming es := by
+  induction es with
+  | nil => intro _ h; cases h
+  | cons e es ih =>
+    simp only [OutsNodup, List.map_cons, List.nodup_cons, List.mem_map, not_exists, not_and] at h
+    intro e₁ h₁ e₂ h₂ ho
+    simp only [List.mem_cons] at h₁ h₂
+    rcases h₁ with rfl | h₁ <;> rcases h₂ with rfl | h₂
+    · rfl
+    · exact absurd ho.symm (h.1 e₂ h₂)
+    · exact absurd ho (h.1 e₁ h₁)
+    · exact ih h.2 e₁ h₁ e₂ h₂ ho
+
 /-! ### Determinism: with single incoming edges a node computes at most one term -/
 
 theorem zip_unique {α β : Type} (R : α → β → Prop) :
